@@ -25,7 +25,9 @@ TECHNIQUE = ("source->Gallina translator (all exits of json_tokener_parse_ex wit
              "+ runtime stream under a synthesised comma-decimal locale installed globally and per thread")
 RULE = ("texts with non-integers (fractions, exponents, numeric strings, commas as separators) rendered from seeded syntax trees, "
         "a table of texts reaching every outcome class of the parser (success, continue by chunking, each error kind incl. depth, "
-        "size with len<-1, utf8, memory by failing duplocale/newlocale), mutated texts, random chunkings/flags/depths; trees with "
+        "size with len<-1, utf8, memory by failing duplocale/newlocale) and a fixed table of every argument shape of a call/feed "
+        "(len==0 chunks first/between/last/alone/repeated, empty C string, calls after success, after error+reset, explicit resets), "
+        "random call histories over slices, mutated texts, random chunkings/flags/depths; trees with "
         "finite doubles of every %.17g shape, NaN/Infinity, retained-text doubles x serializer flags; numeric strings for "
         "json_object_get_double.  Each case runs under C / global comma / per-thread comma in one line.  Non-trivial = the data "
         "contains a non-integer or the outcome is not success; distinct by script line")
@@ -63,7 +65,7 @@ LOCNAME = "xx_COMMA"
 STRICT, TRAILING, UTF8 = 1, 2, 16
 SER_FLAGS = [0, 1, 2, 4, 2 | 4, 1 | 4, 2 | 8, 16, 32 | 2, 1 | 2 | 4 | 16]
 
-STATE = dict(translator=None, outcomes={}, adjacent=[], sep_checked=0, table_mismatch=[], oracle_checked=0)
+STATE = dict(translator=None, outcomes={}, adjacent=[], sep_checked=0, table_mismatch=[], oracle_checked=0, empty_calls=0)
 
 
 def ensure_locale():
@@ -168,12 +170,69 @@ def num_text(rng):
     return b"{" + b",".join(b'"k%d":' % i + t for i, t in enumerate(toks)) + b"}"
 
 
-def chunk_spec(rng, n, nul=True):
-    if n < 2:
+def chunk_spec(rng, n, nul=True, empties=None):
+    """cut offsets; with `empties` (default: 1 case in 4) some offsets are 0, n or repeated, which gives calls
+    with len == 0 at the start, in the middle and at the end of the feed"""
+    if n < 2 and not empties:
         return "Z"
     k = rng.choice([2, 2, 3, 4, 6])
-    cuts = jsongen.partitions(rng, n, k)
+    cuts = jsongen.partitions(rng, n, k) if n >= 2 else []
+    if empties is None:
+        empties = rng.random() < 0.25
+    if empties:
+        for _ in range(rng.choice([1, 1, 2, 3])):
+            cuts.append(rng.choice([0, n] + (cuts or [0])))
+        cuts.sort()
     return ("c" if nul else "k") + ",".join(str(c) for c in cuts)
+
+
+def history_spec(rng, n):
+    """free-form call history over slices of the text (driver spec `h…`): in-order feeds with empty slices,
+    calls after success (next document), calls after an error (the driver resets), NUL-terminated and
+    len=-1 calls, negative lengths, explicit resets — every argument shape of json_tokener_parse_ex"""
+    items = []
+    pos = 0
+    for _ in range(rng.choice([1, 2, 3, 5, 8])):
+        r = rng.random()
+        if r < 0.22:
+            a = rng.choice([0, pos, n, rng.randint(0, n)])
+            items.append("%d:%d" % (a, a))                       # len == 0
+        elif r < 0.60:
+            b = min(n, pos + rng.choice([1, 1, 2, 3, 5, n]))
+            items.append("%d:%d%s" % (pos, b, "z" if (b == n and rng.random() < 0.6) else ""))
+            pos = b if b < n else 0
+        elif r < 0.72:
+            a = rng.randint(0, n)
+            items.append("%d:%d%s" % (a, n, rng.choice(["m", "z", ""])))
+        elif r < 0.80:
+            items.append("0:%dm" % n)
+        elif r < 0.88:
+            items.append("r")
+        elif r < 0.94:
+            items.append("n%d" % rng.choice([2, 3, 100, 2147483647]))
+        else:
+            items.append("0:0m")                                  # empty C string, len = -1
+    return "h" + ",".join(items)
+
+
+# argument shapes of a single call / of a feed that must be present in EVERY run (not left to the PRNG):
+# len == 0 first / between / last / alone / repeated, empty C string, calls after success and after error+reset
+def call_shape_table():
+    out = []
+    texts = [b'[1.5,2.5]', b'1.5', b'{"a":1.5e3}', b'[1.5] [2.5]', b'[1.5,tru]', b'']
+    for text in texts:
+        n = len(text)
+        specs = ["-", "Z", "k0", "k%d" % n, "c0", "c%d" % n, "k0,0", "c0,0,%d,%d" % (n, n), "k%d,%d" % (n // 2, n // 2), "c%d,%d" % (n // 2, n // 2),
+                 "h0:0", "h0:0,0:0", "h0:0m", "h0:0z", "h0:0,0:%dz,0:0" % n, "h0:%dz,0:0,0:%dz" % (n, n), "h0:%d,%d:%d,%d:%dz,%d:%d" % (n // 2, n // 2, n // 2, n // 2, n, n, n),
+                 "h0:%dm,0:0,r,0:0,0:%dm" % (n, n), "hn2,0:0,0:%dz" % n, "hr,0:0,r,0:%dz,r,0:0" % n]
+        for sp in specs:
+            for fl in (0, STRICT):
+                out.append((pline(text, fl, 32, sp, 0), {"kind": "call-shapes"}))
+        for d in (1, 2):
+            out.append((pline(text, 0, d, "h0:0,0:%dz,0:0" % n, 0), {"kind": "call-shapes"}))
+        for fault in (1, 2):
+            out.append((pline(text, 0, 32, "h0:0,0:%dz,0:0" % n, fault), {"kind": "call-shapes-fault"}))
+    return out
 
 
 def gen_double_tree(rng):
@@ -220,6 +279,8 @@ def gen(rng, tier):
         if ch == "Z" and len(text) > 2:
             for _ in range(2):
                 out.append((pline(text, fl, depth, chunk_spec(rng, len(text)), 0), {"kind": "table-chunked-" + want}))
+    # 1b. every argument shape of a call / feed (empty chunks, empty strings, calls after success / error / reset)
+    out += call_shape_table()
     # 2. memory outcome: the locale calls themselves fail
     for text in (b'[1.5]', b'1.5', b'', b'{"a":2.5e3}'):
         for fault in (1, 2):
@@ -243,19 +304,19 @@ def gen(rng, tier):
         if r < 0.30:
             text = num_text(rng)
             fl = rng.choice([0, 0, STRICT, UTF8, STRICT | TRAILING])
-            ch = rng.choice(["Z", "Z", "-", chunk_spec(rng, len(text)), chunk_spec(rng, len(text), nul=False)])
-            out.append((pline(text, fl, 32, ch, 0), {"kind": "parse-numbers"}))
+            ch = rng.choice(["Z", "Z", "-", chunk_spec(rng, len(text)), chunk_spec(rng, len(text), nul=False), history_spec(rng, len(text))])
+            out.append((pline(text, fl, 32, ch, 0), {"kind": "parse-numbers" + ("-history" if ch[0] == "h" else "")}))
         elif r < 0.45:
             s, text = jsongen.gen_doc(rng, depth=rng.choice([1, 2, 3, 5]), width=rng.choice([2, 4]))
             depth = rng.choice([32, 32, 1, 2, 3, 4])
             fl = rng.choice([0, STRICT, UTF8, TRAILING])
-            ch = rng.choice(["Z", chunk_spec(rng, len(text))])
-            out.append((pline(text, fl, depth, ch, 0), {"kind": "parse-doc"}))
+            ch = rng.choice(["Z", chunk_spec(rng, len(text)), history_spec(rng, len(text))])
+            out.append((pline(text, fl, depth, ch, 0), {"kind": "parse-doc" + ("-history" if ch[0] == "h" else "")}))
         elif r < 0.60:
             text = jsongen.mutate_bytes(rng, num_text(rng))
             fl = rng.choice([0, STRICT, UTF8, STRICT | UTF8])
-            ch = rng.choice(["Z", "-", chunk_spec(rng, len(text)), chunk_spec(rng, len(text), nul=False)])
-            out.append((pline(text, fl, rng.choice([32, 2, 3]), ch, rng.choice([0, 0, 0, 0, 1, 2])), {"kind": "parse-mutated"}))
+            ch = rng.choice(["Z", "-", chunk_spec(rng, len(text)), chunk_spec(rng, len(text), nul=False), history_spec(rng, len(text))])
+            out.append((pline(text, fl, rng.choice([32, 2, 3]), ch, rng.choice([0, 0, 0, 0, 1, 2])), {"kind": "parse-mutated" + ("-history" if ch[0] == "h" else "")}))
         elif r < 0.95:
             t = gen_double_tree(rng)
             out.append(("loc S %s %d" % (jvtext.dump(t), rng.choice(SER_FLAGS)), {"kind": "ser-tree"}))
@@ -330,7 +391,9 @@ def oracle(line, meta, impl):
     c = modes["C"]["data"]
     if op == "P":
         for e in c[0].split(","):
-            STATE["outcomes"][e] = STATE["outcomes"].get(e, 0) + 1
+            if e != "reset":
+                STATE["outcomes"][e] = STATE["outcomes"].get(e, 0) + 1
+        STATE["empty_calls"] += count_empty_calls(line)
         if meta.get("want") and c[0].split(",")[-1] != meta["want"]:
             STATE["table_mismatch"].append((line, c[0]))
     if op == "F":
@@ -371,6 +434,29 @@ def oracle(line, meta, impl):
     return None
 
 
+def count_empty_calls(line):
+    """number of len == 0 calls a P line asks for (coverage figure)"""
+    t = line.split(" ")
+    n = 0 if t[2] == "-" else len(t[2]) // 2
+    sp = t[5]
+    if sp == "-":
+        return 1 if n == 0 else 0
+    if sp[0] in "ck":
+        cuts = [0] + sorted(min(int(x), n) for x in sp[1:].split(",") if x) + [n]
+        k = sum(1 for a, b in zip(cuts, cuts[1:]) if a == b)
+        if sp[0] == "c" and cuts[-2] == n:
+            k -= 1      # the last chunk carries the NUL
+        return k
+    if sp[0] == "h":
+        k = 0
+        for it in sp[1:].split(","):
+            if ":" in it and it[-1] not in "zm":
+                a, b = it.split(":")
+                k += 1 if min(int(a), n) >= min(int(b), n) else 0
+        return k
+    return 0
+
+
 def classify(line, meta, mo, co):
     return None
 
@@ -401,16 +487,48 @@ def shrink(ck, line, cls):
     t = line.split(" ")
     if t[1] == "P":
         text = b"" if t[2] == "-" else bytes.fromhex(t[2])
+        n = len(text)
+        sp = t[5]
 
-        def fails(bs):
-            l = "loc P %s %s %s %s %s" % (hx(bytes(bs)), t[3], t[4], "Z" if t[5][0] in "ck" else t[5], t[6])
+        def mk(bs, spec):
+            return "loc P %s %s %s %s %s" % (hx(bytes(bs)), t[3], t[4], spec, t[6])
+
+        def fails_line(l):
             m, c, _ = ck.run_pair([l], "shrink")
             v = oracle(l, {}, c.get(1, "MISSING"))
             return v is not None and v[0] == cls
-        if not fails(list(text)):
+        # 1. the feed as an explicit call history, then the fewest calls that still fail
+        if sp[0] in "ck":
+            cuts = [0] + sorted(min(int(x), n) for x in sp[1:].split(",") if x) + [n]
+            items = ["%d:%d" % (a, b) for a, b in zip(cuts, cuts[1:])]
+            if sp[0] == "c":
+                items[-1] += "z"
+        elif sp[0] == "h":
+            items = sp[1:].split(",")
+        else:
+            items = None
+        if items and fails_line(mk(text, "h" + ",".join(items))):
+            items = fw.ddmin(items, lambda sub: fails_line(mk(text, "h" + ",".join(sub))), budget=40)
+            sp = "h" + ",".join(items)
+        elif not fails_line(mk(text, sp)):
             return line
-        small = fw.ddmin(list(text), fails, budget=80)
-        return "loc P %s %s %s %s %s" % (hx(bytes(small)), t[3], t[4], "Z" if t[5][0] in "ck" else t[5], t[6])
+        # 2. the text (slice offsets are clipped by the driver)
+        small = fw.ddmin(list(text), lambda bs: fails_line(mk(bs, sp)), budget=60) if len(text) >= 2 else list(text)
+        if len(small) == 1 and fails_line(mk(b"", sp)):
+            small = []
+        if sp[0] == "h":          # clip the slice offsets to the shrunk text (the driver does the same)
+            k = len(small)
+            norm = []
+            for it in sp[1:].split(","):
+                if ":" in it:
+                    suf = it[-1] if it[-1] in "zm" else ""
+                    a, b = (it[:-1] if suf else it).split(":")
+                    b = min(int(b), k)
+                    it = "%d:%d%s" % (min(int(a), b), b, suf)
+                norm.append(it)
+            if fails_line(mk(small, "h" + ",".join(norm))):
+                sp = "h" + ",".join(norm)
+        return mk(small, sp)
     if t[1] == "S":
         # try the double leaves one by one
         import re
@@ -432,6 +550,9 @@ def search(rng, broken_lines):
                 out.append((pline(text, f, d, ch, 0), {"kind": "search"}))
         for fault in (1, 2):
             out.append((pline(text, fl, depth, ch, fault), {"kind": "search"}))
+    for _ in range(400):
+        text = num_text(rng)
+        out.append((pline(text, rng.choice([0, STRICT, UTF8]), rng.choice([32, 2]), history_spec(rng, len(text)), 0), {"kind": "search-history"}))
     return out + gen(rng, "quick")
 
 
@@ -442,6 +563,7 @@ def extra_coverage():
                 parser_outcome_classes_seen=dict(sorted(STATE["outcomes"].items())),
                 cases_with_comma_locale_verified_in_effect=STATE["sep_checked"],
                 snprintf_oracle_hypothesis_checked_on=STATE["oracle_checked"],
+                parse_calls_with_len_0=STATE["empty_calls"],
                 outcome_table_mismatches=STATE["table_mismatch"][:5],
                 adjacent_observation=dict(
                     what="json_object_get_double() on a string object calls strtod in the CALLER's numeric locale: under a comma locale "
